@@ -120,11 +120,13 @@ PAlloc(p, t, req, cnt, required, pref, commit) ==
             THEN /\ resv' = [resv EXCEPT ![p] = EntriesOf(out.result)]
                  /\ Becomes(UCU(Cur, total, EntriesOf(out.result), p, TRUE))          \* Reserve
             ELSE UNCHANGED <<resv, usedL, freeL, setL>>
-       /\ UNCHANGED total /\ KeepExempt
+       /\ UNCHANGED <<total, lost>> /\ KeepExempt
 
 \* informer events: the handler sees (old, new); old is the object delivered last
 Deliver(p, old, new) == Becomes(UpdatePod(Cur, total, p, old, new)) /\ akOK' = TRUE
 PUnreserve(p) == Unreserve(p) /\ Becomes(UCU(Cur, total, resv[p], p, FALSE)) /\ akOK' = TRUE
+\* a late roll-back: Plugin.Unreserve subtracts what Reserve assumed (= what the bound pod's annotation holds)
+PLateUnreserve(p) == LateUnreserve(p) /\ Becomes(UCU(Cur, total, api[p].alloc, p, FALSE)) /\ akOK' = TRUE
 PCreate(p)    == Create(p) /\ Deliver(p, NoPod, api'[p])
 PBind(p)      == Bind(p) /\ Deliver(p, api[p], api'[p])
 PTouch(p)     == Touch(p) /\ Deliver(p, api[p], api[p])
@@ -145,6 +147,7 @@ MInventory == \E healthy \in SUBSET Devs : PInventory(healthy)
 MAlloc     == \E p \in Pods, t \in Types, cnt \in 1..MaxCnt, required \in RequiredMenu, pref \in PrefMenu :
                  \E req \in ReqMenu(t) : PAlloc(p, t, req, cnt, required, pref, TRUE)
 MUnreserve == \E p \in Pods : PUnreserve(p)
+MLateUnreserve == \E p \in Pods : PLateUnreserve(p)
 MCreate    == \E p \in Pods : PCreate(p)
 MBind      == \E p \in Pods : PBind(p)
 MTouch     == \E p \in Pods : PTouch(p)
@@ -159,7 +162,7 @@ MAdd       == \E p \in Pods, e \in ForeignMenu : PAdd(p, e)
 MInit == /\ Init
          /\ usedL = NoDevices /\ freeL = NoDevices /\ setL = [p \in Pods |-> {}] /\ akOK = TRUE
 MNext == \/ MInventory \/ MAlloc \/ MUnreserve \/ MCreate \/ MBind \/ MTouch \/ MReAdd \/ MAnnotate
-         \/ MTerminate \/ MUnassign \/ MDelete \/ MReDelete \/ MAdd
+         \/ MTerminate \/ MUnassign \/ MDelete \/ MReDelete \/ MAdd \/ MLateUnreserve
 MSpec == MInit /\ [][MNext]_mvars
 
 (****************************** invariants **********************************)
